@@ -2,7 +2,7 @@ CONSTANTS
   Order <- OrderAB
   MaxSteps = 5
   MaxDepth = 3
-  Steps = {1, 3}
+  Steps = {1, 3, 1200}
 SPECIFICATION Spec
 INVARIANTS EmitHistories
 CHECK_DEADLOCK FALSE
